@@ -10,6 +10,7 @@ import Poulpy.Lemmas.CkksAutBal
 import Poulpy.Lemmas.CkksDot
 import Poulpy.Lemmas.CkksXProg
 import Poulpy.Lemmas.CkksRelin
+import Poulpy.Lemmas.CkksAutNumeric
 /-!
 # C16 — the CKKS evaluator tracks precision metadata through any straight-line program
 
@@ -1635,6 +1636,82 @@ example (big : Bool) : ∃ c', dSquareInto env4 2 ⟨big, zk43⟩ xD xA = .ok c'
       subst h0; subst h2
       exact zk43_admSq big)
   exact ⟨c', h, hd⟩
+
+/-- **in-place rotations / conjugation with `dsize = 1` keys: admissibility from numeric conditions** — C03's data-dependent hypotheses
+(accumulator head-room, gadget noise, dropped limbs) and the bound on the error constant follow from `‖EL‖∞ ≤ Emax`, key digits within
+`Kb` and the shape -/
+theorem aut_assign_adm_numeric {env : Env} (he : EnvOK env) {N r : Nat} {big : Bool} {c : DCt} (hc : DOK env N r c) {key : Ks.Key}
+    {s : List Poly} {gInv : Int} {EL KL : ℕ → ℕ → Poly} {Kb Emax : Int}
+    (hkb : key.base2k = env.base2k) (hd : key.dsize = 1) (hg : GalOk key.p N) (hsk : Ks.AllLen N s)
+    (hinv : ∀ p ∈ s, AutoMul.σ key.p (AutoMul.σ gInv p) = p) (hrank : c.g.rank = key.rankIn) (hrout : c.g.rank = key.rankOut)
+    (hc0 : 0 < key.mat.colsOut) (hM : ∀ j q, (key.mat.entry j q).length = N) (hS : key.mat.rows ≤ key.mat.size)
+    (hs : key.mat.colsIn ≤ s.length) (hEL : ∀ i r, (EL i r).length = N) (hKL : ∀ i r, (KL i r).length = N)
+    (hkey : ∀ i, i < key.mat.colsIn → ∀ r, r < key.mat.rows →
+      Gadget.val (Ks.radix N key.base2k) key.mat.size (Ks.keyPhase N (s.map (AutoMul.σ gInv)) key.mat i r) =
+        Ks.ι N (s.getD i []) * Ks.radix N key.base2k ^ (key.mat.size - (r + 1) * key.dsize) + Ks.ι N (EL i r)
+          + Ks.radix N key.base2k ^ key.mat.size * Ks.ι N (KL i r))
+    (hcov1 : c.g.size ≤ key.mat.size) (hcov2 : c.g.size ≤ key.mat.rows)
+    (hK0 : 0 ≤ Kb) (hK : ∀ j q, ∀ x ∈ key.mat.entry j q, |x| ≤ Kb) (hE0 : 0 ≤ Emax) (hE : ∀ i r, Hal.normInf (EL i r) ≤ Emax)
+    (hroom : ((key.mat.colsIn * key.mat.rows : Nat) : Int) * (N * 2 ^ (env.base2k - 1) * Kb) + (2 ^ (env.base2k - 1) + 2 ^ env.base2k) + 8
+      ≤ 2 ^ (KsDec.bitsOf big - 2)) :
+    AutAssignAdm env N big s
+      (((key.mat.colsIn * (key.mat.rows * (N * 2 ^ (env.base2k - 1) * Emax)) : Int) : ℚ)
+        + ((1 + C02L.snorm (min c.g.rank (s.map (AutoMul.σ gInv)).length) (s.map (AutoMul.σ gInv)) : Int) : ℚ)) key c :=
+  autAssignAdm_numeric he hc hkb hd hg hsk hinv hrank hrout hc0 hM hS hs hEL hKL hkey hcov1 hcov2 hK0 hK hE0 hE hroom
+
+/-- the noise list of C03's closed key, cut to the rows the key has -/
+def exEL' : ℕ → ℕ → Poly := fun i r => if i < 1 ∧ r < 1 then KsDec.exELG3 i r else [0, 0]
+
+example (big : Bool) : AutAssignAdm env4 2 big KsDec.exSk2
+    ((((1 : Nat) * ((1 : Nat) * ((2 : Nat) * 2 ^ (4 - 1) * 16)) : Int) : ℚ)
+      + ((1 + C02L.snorm (min xRot.g.rank (KsDec.exSk2.map (AutoMul.σ 3)).length) (KsDec.exSk2.map (AutoMul.σ 3)) : Int) : ℚ))
+    KsDec.exKeyG3 xRot := by
+  have hMl := Ks.entry_length KsDec.exKeyG3.mat 2 rfl (by decide)
+  exact aut_assign_adm_numeric (env := env4) env4_ok (N := 2) (r := 1) (big := big) xRot_ok (key := KsDec.exKeyG3) (s := KsDec.exSk2) (gInv := 3)
+    (EL := exEL') (KL := fun _ _ => [0, 0]) (Kb := 1) (Emax := 16) rfl rfl KsDec.exG3_ok
+    (by intro p hp; simp [KsDec.exSk2] at hp; subst hp; rfl) (by intro s hs; simp [KsDec.exSk2] at hs; subst hs; decide)
+    (by decide) (by decide) (by decide) hMl (by decide) (by decide)
+    (by
+      intro i r
+      unfold exEL'
+      split
+      · exact Ks.keyErrL_length 2 4 _ KsDec.exKeyG3 _ i r (by decide) hMl (fun _ => rfl)
+      · rfl)
+    (fun _ _ => rfl)
+    (by
+      intro i hi r hr
+      have hi0 : i = 0 := by have : i < 1 := hi; omega
+      have hr0 : r = 0 := by have : r < 1 := hr; omega
+      subst hi0; subst hr0
+      have : exEL' 0 0 = KsDec.exELG3 0 0 := by unfold exEL'; rw [if_pos ⟨by omega, by omega⟩]
+      rw [this]
+      exact KsDec.exG3_key 0 (by decide) 0)
+    (by decide) (by decide) (by norm_num)
+    (by
+      intro j q x hx
+      have hz : ∀ c ∈ KsDec.exKeyG3.mat.data, ∀ col ∈ c, ∀ l ∈ col, ∀ y ∈ l, |y| ≤ (1 : Int) := by decide
+      unfold Hal.PMat.entry Hal.limbOr0 at hx
+      rcases KsNum.getD_cases (((KsDec.exKeyG3.mat.data.getD j []).getD (q % KsDec.exKeyG3.mat.colsOut) [])) (q / KsDec.exKeyG3.mat.colsOut)
+        (Hal.zeroP KsDec.exKeyG3.mat.n) with h | h
+      · rw [h] at hx; exact KsNum.zeroP_entries _ 1 (by norm_num) x hx
+      · rcases KsNum.getD_cases (KsDec.exKeyG3.mat.data.getD j []) (q % KsDec.exKeyG3.mat.colsOut) [] with h2 | h2
+        · rw [h2] at h; cases h
+        · rcases KsNum.getD_cases KsDec.exKeyG3.mat.data j [] with h3 | h3
+          · rw [h3] at h2; cases h2
+          · exact hz _ h3 _ h2 _ h x hx)
+    (by norm_num)
+    (by
+      intro i r
+      unfold exEL'
+      split
+      · next h =>
+        obtain ⟨h1, h2⟩ := h
+        have hi0 : i = 0 := by omega
+        have hr0 : r = 0 := by omega
+        subst hi0; subst hr0
+        decide
+      · decide)
+    (by cases big <;> (show ((1 * 1 : Nat) : Int) * (((2 : Nat) : Int) * 2 ^ (4 - 1) * 1) + (2 ^ (4 - 1) + 2 ^ 4) + 8 ≤ _; norm_num [KsDec.bitsOf]))
 
 /-- **one call of a program with products, rotations and sums** on tracked states -/
 theorem step_sem_x {env : Env} (he : EnvOK env) {N r : Nat} (hN : 0 < N) {mk : MulKey} {ak : AutKeys} {pool : DPool}
